@@ -11,7 +11,7 @@
  *                    another session); when only GSID's sends remain it must be one of them, so that every one of them is visited exactly once */
 #ifndef TCP_SEND_QUEUE_CMDFIFO_H
 #define TCP_SEND_QUEUE_CMDFIFO_H
-SessionId GSID; size_t G_accepted;             /* witness session; end of the positions accepted for it so far */
+SessionId GSID; size_t G_accepted; SessionId GCSID;      /* GCSID: witness connect id (ids are unique: at most one queued Connect carries it) */             /* witness session; end of the positions accepted for it so far */
 typedef struct { int addr; } ListenerCfg;
 typedef struct { SessionId sid; int host; uint16_t port; TlsMode tls; } ConnectReq;
 typedef struct { unsigned set_calls; bool value; } iora_promise;
@@ -25,8 +25,9 @@ static inline void iora_pbuf_fill(iora_slice *b, const void *src, size_t n)
 { IORA_ASSERT(n <= b->hi - b->lo, "memcpy into the payload buffer stays inside it"); IORA_ASSERT(n == 0 || __CPROVER_r_ok(src, n), "memcpy source readable"); G_pbuf_filled = n; G_pbuf_src = src; }
 static inline Command iora_Command_send(SendReq sr) { Command c; c.t = Cmd_Send; c.s = sr; c.listenerReady = 0; c.closeSid = 0; c.closeReason = 0; c.closeMsg = 0; c.closeOrigin = 0; c.c.sid = 0; return c; }
 
-typedef struct { size_t n; iora_sdeque w; const iora_mutex *guard; Command cur; } iora_cmdfifo;
-#define iora_cmdfifo_DEFAULT ((iora_cmdfifo){0, {0, {0, 0}, 0}, 0})
+typedef struct { size_t n; iora_sdeque w; bool has_c; /* a Connect carrying GCSID is queued */ const iora_mutex *guard; Command cur; } iora_cmdfifo;
+#define iora_cmdfifo_DEFAULT ((iora_cmdfifo){0, {0, {0, 0}, 0}, 0, 0})
+unsigned G_doconnect_w_calls; bool G_iter_is_wc; unsigned G_iter_base;      /* per iteration: the command handed out is the witness Connect; doConnect calls for it before */
 unsigned G_push_calls; Cmd G_push_kind; SessionId G_push_sid; size_t G_push_size;
 static inline void iora_cmdfifo_push_back(iora_cmdfifo *q, Command c)
 {
@@ -47,21 +48,32 @@ static inline void iora_cmdfifo_push_back(iora_cmdfifo *q, Command c)
 static inline void iora_cmdfifo_push_front(iora_cmdfifo *q, Command c) { (void)c; IORA_ASSERT(0, "Q1 commands are appended at the TAIL of the queue (FIFO)"); q->n++; }
 static inline void iora_cmdfifo_swap(iora_cmdfifo *a, iora_cmdfifo *b)
 { IORA_ASSERT((a->guard == 0 || a->guard->held) && (b->guard == 0 || b->guard->held), "LK3 the command queue is swapped with _cmdMutex held");
-  size_t n = a->n; iora_sdeque w = a->w; a->n = b->n; a->w = b->w; b->n = n; b->w = w; }
+  size_t n = a->n; iora_sdeque w = a->w; bool hc = a->has_c; a->n = b->n; a->w = b->w; a->has_c = b->has_c; b->n = n; b->w = w; b->has_c = hc; }
 static inline size_t iora_cmdfifo_size(const iora_cmdfifo *q) { return q->n; }
 /* i-th command in queue order (the loop visits 0, 1, 2, ...): `rem` = commands not yet visited */
 static inline Command *iora_cmdfifo_next(iora_cmdfifo *q, size_t i)
 {
   IORA_ASSERT(i < q->n, "deque iteration inside the deque");
   size_t rem = q->n - i;
-  IORA_ASSUME(q->w.n <= rem);                                          /* model consistency: the witness sends are among the remaining commands */
-  bool is_w = q->w.n > 0 && (q->w.n == rem || nondet_bool());
+  size_t special = q->w.n + (q->has_c ? 1u : 0u);                      /* tracked commands not yet visited */
+  IORA_ASSUME(special <= rem);                                          /* model consistency: they are among the remaining commands */
+  bool is_special = special > 0 && (special == rem || nondet_bool());
+  bool is_wc = is_special && q->has_c && (q->w.n == 0 || nondet_bool());  /* the witness Connect sits anywhere among them */
+  bool is_w = is_special && !is_wc;
   Command *c = &q->cur;
+  G_iter_is_wc = is_wc; G_iter_base = G_doconnect_w_calls;
   if (is_w) { c->t = Cmd_Send; c->s.sid = GSID; c->s.payload = *iora_sdeque_front(&q->w); iora_sdeque_pop_front(&q->w); c->listenerReady = 0; }
+  else if (is_wc) { c->t = Cmd_Connect; c->c.sid = GCSID; c->c.tls = nondet_int(); c->c.port = 0; c->c.host = 0; c->listenerReady = 0; q->has_c = 0; }
   else { c->t = nondet_int(); c->s.sid = nondet_u64(); c->s.payload.lo = nondet_size_t(); c->s.payload.hi = nondet_size_t(); c->c.sid = nondet_u64(); c->closeSid = nondet_u64();
          c->closeReason = nondet_int(); c->closeOrigin = nondet_int(); c->closeMsg = "cmd"; c->listenerReady = 0;
-         IORA_ASSUME(c->t >= Cmd_Shutdown && c->t <= Cmd_Close && !(c->t == Cmd_Send && c->s.sid == GSID) && c->s.payload.lo < c->s.payload.hi && c->closeOrigin >= 0 && c->closeOrigin <= 3); }
+         IORA_ASSUME(c->t >= Cmd_Shutdown && c->t <= Cmd_Close && !(c->t == Cmd_Send && c->s.sid == GSID) && !(c->t == Cmd_Connect && c->c.sid == GCSID)
+                     && c->s.payload.lo < c->s.payload.hi && c->closeOrigin >= 0 && c->closeOrigin <= 3); }
   return c;
 }
 #define IORA_EACH_REF_c(q, k) Command *c = iora_cmdfifo_next(&(q), (k))
+/* end of one dispatch iteration (the loop's increment): the command that was handed out has been dealt with */
+static inline void iora_cmdfifo_done(void)
+{ IORA_ASSERT(!G_iter_is_wc || G_doconnect_w_calls == G_iter_base + 1, "PQ-C a Connect command taken from the queue is handed to doConnect exactly once, whatever _running says (connect() already returned its id: it must get onConnect or onClose)");
+  IORA_ASSERT(G_iter_is_wc || G_doconnect_w_calls == G_iter_base, "PQ-C doConnect runs for an id only when its Connect command is dispatched"); }
+#define IORA_NEXT_CMD(k) (iora_cmdfifo_done(), ++(k))
 #endif
